@@ -3,4 +3,4 @@ Require Extraction. Require ExtrOcamlBasic.
 From NV Require Import Base.PySlice C06.Model.
 Extraction Language OCaml.
 Extraction "c06_model.ml" py_indices fill_slicer slice2len predict_shape slice2outax canonical_slicers
-  positive_slice threshold_heuristic optimize_slicer calc_slicedefs read_segments fileslice_h numpy_slice.
+  positive_slice threshold_heuristic optimize_slicer calc_slicedefs read_segments fileslice_h numpy_slice canonical_valid.
